@@ -105,7 +105,7 @@ impl Engine for C16 {
         // rarely the opposite of degenerate, next to the degenerate records: 2-4 records
         // of 0.8-1.6 Mbases for the record-oriented commands whose cost is per record
         // (a minimiser listing with a short window is then a row of many megabytes)
-        let mega = matches!(sub, "oligo" | "kcgr" | "min") && rng.chance(1, 5000);
+        let mega = matches!(sub, "oligo" | "kcgr" | "min") && rng.chance(1, 2500);
         if mega {
             records.truncate(4);
             for i in 0..rng.usize(2, 4) {
